@@ -880,7 +880,7 @@ fn relay_replacement_fault(prop: &str, i: u64, rng: &mut Rng, out: &mut Outcome,
 pub fn run(ctx: &Ctx) -> i32 {
     let dir = ctx.scratch_dir("c12");
     let thorough = ctx.tier == crate::report::Tier::Thorough;
-    let reps = ctx.budget(4, 16) as u64;
+    let reps = ctx.budget(8, 32) as u64;
     let n = TEMPLATES.len() as u64 * reps;
     let max_cuts = if thorough { 400 } else { 200 };
     let out = crate::par::run(ctx, n, Duration::from_secs(ctx.tier.pick(100, 1500)), |i, rng, out| {
@@ -888,7 +888,7 @@ pub fn run(ctx: &Ctx) -> i32 {
         run_case(&ctx.prop, t, i, rng, out, &dir, true, max_cuts)
     });
     let mut out = out;
-    let n2 = ctx.budget(120, 2000) as u64;
+    let n2 = ctx.budget(600, 6000) as u64;
     let ctx2 = Ctx { prop: "C12-txn".into(), ..ctx.clone() };
     let o2 = crate::par::run(&ctx2, n2, Duration::from_secs(ctx.tier.pick(60, 600)), |i, rng, out| in_process_txn_faults(&ctx.prop, i, rng, out, &dir));
     out.merge(o2);
